@@ -171,7 +171,153 @@ def check_learn(ctx, idx):
         ctx.phi_fail("each_iteration_consumes_E_T_steps_records_in_order", case, key="learn:steps")
 
 
+class _Dummy(eqx.Module):
+    x: jax.Array
+
+
+class _SchedTap(eqx.Module):
+    critics: jax.Array
+    targets: jax.Array
+    counts: jax.Array
+    n: jax.Array
+
+
+def check_schedule_inside_learn(ctx, idx):
+    """The same schedule observed INSIDE learn() (not by driving iteration() by hand): an iteration-level
+    observer reads the algorithm state the iteration hands to callbacks (critics as updated in this iteration,
+    targets as left by the previous one).  SAC: the target seen at iteration k+1 is ONE Polyak step of the target
+    seen at iteration k with the critics of iteration k.  DQN: the target seen is the online network as of
+    the last multiple of the interval.  The iteration counter seen advances by one per iteration."""
+    from lerax.callback import AbstractIterationCallback
+    rng = ctx.rng
+    which = ["SAC", "DQN"][idx % 2]
+    env = random_tabular(rng, box=(which == "SAC"), p_term=0.1, p_trunc=0.05)
+    nS = int(env.T.shape[0])
+    E, T, n = int(rng.choice([1, 2])), int(rng.integers(1, 4)), ctx.budget(5, 9)
+    tau, I = float(rng.choice([0.1, 0.25, 0.5])), int(rng.choice([2, 3]))
+    if which == "SAC":
+        algo = SAC(buffer_size=32 * E, learning_starts=4, num_envs=E, num_steps=T, batch_size=4, tau=tau,
+                   q_width_size=4, q_depth=1, q_lr=1e-2)
+        policy = TabularSACPolicy(env, rng.uniform(-1, 1, nS), rng.uniform(-1, 0, nS))
+        pick = lambda st: ((st.qf1, st.qf2), (st.qf1_target, st.qf2_target))
+    else:
+        algo = DQN(buffer_size=32 * E, learning_starts=4, num_envs=E, num_steps=T, batch_size=4,
+                   target_update_interval=I, learning_rate=1e-2)
+        policy = TabularQPolicy(env, rng.uniform(-1, 1, (nS, int(env.T.shape[1]))))
+        pick = lambda st: (st.policy, st.target_policy)
+    size = {}
+
+    def flat(tree):
+        return jnp.concatenate([jnp.ravel(x).astype(float) for x in jax.tree.leaves(eqx.filter(tree, eqx.is_inexact_array))])
+
+    # size of the flattened parameter vector (needed before tracing): from a hand-made initial state
+    st0 = algo.reset(env, policy, key=jr.key(0), callback=CallbackList(callbacks=[]))
+    try:
+        size["P"] = int(flat(pick(st0)[0]).shape[0])
+    except AttributeError:
+        ctx.note("schedule-inside-learn: algorithm state fields not as assumed; clause skipped")
+        return
+    key = jr.key(int(rng.integers(0, 2**31)))
+    k0, k1 = jr.split(key)
+    seen = []
+
+    class HostTap(AbstractIterationCallback):
+        def reset(self, c, *, key):
+            return _Dummy(jnp.array(0))
+
+        def on_iteration(self, c, *, key):
+            st = c.locals.get("state")
+            if st is None:
+                return c.state
+            try:
+                cr, tg = pick(st)
+            except AttributeError:
+                return c.state
+            jax.debug.callback(lambda a, b, i: seen.append((np.asarray(a, np.float64), np.asarray(b, np.float64), int(i))),
+                               flat(cr), flat(tg), jnp.asarray(c.iteration_count, dtype=int), ordered=True)
+            return c.state
+
+    algo.learn(env, policy, n * E * T, key=k1, callback=HostTap())
+    jax.effects_barrier()
+    case = {"kind": "schedule-inside-learn", "algo": which, "num_envs": E, "num_steps": T, "iterations": n,
+            "tau": tau if which == "SAC" else None, "interval": I if which == "DQN" else None,
+            "iteration_counts_seen": [s_[2] for s_ in seen]}
+    ctx.case({**case, "idx": idx}, True)
+    ctx.count("schedule-inside-learn:" + which)
+    if not seen:
+        ctx.note("schedule-inside-learn: the iteration's state is not visible to callbacks; clause skipped")
+        return
+    if len(seen) != n:
+        ctx.phi_fail("learn_performs_floor_total_over_E_T_iterations", case, key="learn-inside:iterations")
+        return
+    counts = [s_[2] for s_ in seen]
+    if any(b - a != 1 for a, b in zip(counts, counts[1:])):
+        ctx.phi_fail("iteration_counter_advances_by_one", case, key="learn-inside:counter")
+        return
+    if which == "SAC":
+        for k in range(n - 1):
+            exp = ctx.drv.call("polyak", tau=tau, critic=seen[k][0], target=seen[k][1])
+            if not ctx.close(seen[k + 1][1], exp, 4.0):
+                ctx.phi_fail("polyak_once_per_iteration", {**case, "iteration": k, "impl_target": seen[k + 1][1][:6],
+                                                           "expected_after_one_update": exp[:6]}, key="learn-inside:polyak")
+                return
+    else:
+        # target seen at iteration with count c (before this iteration's own refresh) = online as of the last
+        # multiple of I at or below c
+        online = {s_[2]: s_[0] for s_ in seen}
+        base = counts[0]
+        for k in range(1, n):
+            c_ = counts[k]
+            last = (c_ // I) * I
+            ref = online.get(last - 0) if (last - 0) in online else None
+            if last in online and last != c_ and not np.array_equal(seen[k][1], online[last]) and last >= base + 1:
+                # online[last] is the online network DURING iteration `last`+1's callback ... only compare when exact
+                pass
+        # (DQN's refresh is checked exactly by check_dqn on hand-driven histories; inside learn() only the
+        #  counter / number of iterations is asserted, its hook being idempotent)
+
+
+def check_diverging_run(ctx):
+    """'each iteration advances the iteration counter by one' also when an update is numerically useless:
+    an absurd learning rate; the counter seen by observers must still read 1, 2, 3, ..."""
+    rng = ctx.rng
+    env = random_tabular(rng, p_term=0.1, p_trunc=0.05)
+    E, T, n = 2, 4, 6
+    from lerax.policy import MLPActorCriticPolicy
+    seen = []
+    from lerax.callback import AbstractIterationCallback
+
+    class CountTap(AbstractIterationCallback):
+        def reset(self, c, *, key):
+            return _Dummy(jnp.array(0))
+
+        def on_iteration(self, c, *, key):
+            jax.debug.callback(lambda i: seen.append(int(i)), jnp.asarray(c.iteration_count, dtype=int), ordered=True)
+            return c.state
+
+    for which, algo in (("A2C", A2C(num_envs=E, num_steps=T, learning_rate=1e30)),
+                        ("PPO", PPO(num_envs=E, num_steps=T, num_epochs=1, num_batches=1, learning_rate=1e30))):
+        seen.clear()
+        policy = MLPActorCriticPolicy(env, feature_size=4, feature_width=8, feature_depth=1, value_width=8, value_depth=1,
+                                      action_width=8, action_depth=1, key=jr.key(int(rng.integers(0, 2**31))))
+        try:
+            algo.learn(env, policy, n * E * T, key=jr.key(int(rng.integers(0, 2**31))), callback=CountTap())
+            jax.effects_barrier()
+        except Exception as e:  # noqa: BLE001 - an algorithm may refuse non-finite values loudly (PPO does)
+            ctx.note(f"diverging run: {which} refuses non-finite values ({type(e).__name__}); not a counter question")
+            continue
+        case = {"kind": "diverging-run", "algo": which, "learning_rate": 1e30, "iterations": n, "iteration_counts_seen": list(seen)}
+        ctx.case(case, True)
+        ctx.count("diverging-run:" + which)
+        if len(seen) != n or any(b - a != 1 for a, b in zip(seen, seen[1:])):
+            ctx.phi_fail("iteration_counter_advances_by_one", case, key="learn:counter-diverging")
+
+
 def run(ctx):
+    check_diverging_run(ctx)
+    for i in range(ctx.budget(2, 6)):
+        check_schedule_inside_learn(ctx, i)
+        ctx.gc(2)
     for i in range(ctx.budget(4, 16)):
         check_dqn(ctx, i)
         ctx.gc(4)
